@@ -32,6 +32,9 @@ type Cfg struct {
 	Auth        []string // nil: no AuthSession
 	HasAuth     bool
 	ImplicitTLS bool
+	// Timeouts: Server.ReadTimeout and WriteTimeout are set (to an hour: nothing ever expires on a scripted
+	// connection, which ignores deadlines, but every code path that is taken only with a time-out configured runs)
+	Timeouts bool
 }
 
 func DefaultCfg() Cfg { return Cfg{Domain: "d", MaxLine: 2000} }
@@ -45,12 +48,16 @@ func (c Cfg) Sx() *Sx {
 		}
 		auth = l
 	}
-	return L(A("cfg"),
+	x := L(A("cfg"),
 		L(A("lmtp"), B(c.LMTP)), L(A("tlscfg"), B(c.TLSConfig)), L(A("domain"), XS(c.Domain)),
 		L(A("maxrcpt"), Num(int64(c.MaxRcpt))), L(A("maxbytes"), Num(c.MaxBytes)), L(A("maxline"), Num(int64(c.MaxLine))),
 		L(A("insecure"), B(c.Insecure)), L(A("utf8"), B(c.UTF8)), L(A("requiretls"), B(c.RequireTLS)),
 		L(A("binarymime"), B(c.BinaryMIME)), L(A("dsn"), B(c.DSN)), L(A("rrvs"), B(c.RRVS)),
 		L(A("lmtpsession"), B(c.LMTPSession)), L(A("auth"), auth), L(A("implicittls"), B(c.ImplicitTLS)))
+	if c.Timeouts {
+		x.Add(L(A("timeouts"), B(true)))
+	}
+	return x
 }
 
 // ConvCase is one scripted conversation with a server.
@@ -115,6 +122,9 @@ func RunConv(c ConvCase) *Sx {
 	s.EnableREQUIRETLS = c.Cfg.RequireTLS
 	s.EnableBINARYMIME = c.Cfg.BinaryMIME
 	s.EnableDSN = c.Cfg.DSN
+	if c.Cfg.Timeouts {
+		s.ReadTimeout, s.WriteTimeout = time.Hour, time.Hour
+	}
 	s.EnableRRVS = c.Cfg.RRVS
 
 	var phases [][]Raw
